@@ -332,7 +332,8 @@ func (rt *runtime) cmplEvaluateNodeSwitchStatement(node *nodeSwitchStatement) Va
 	labels := append(rt.labels, "") //nolint:gocritic
 	rt.labels = nil
 
-	discriminantResult := rt.cmplEvaluateNodeExpression(node.discriminant)
+	// 12.11 step 2: GetValue(exprRef) once, before any case expression runs.
+	discriminantResult := rt.cmplEvaluateNodeExpression(node.discriminant).resolve()
 	target := node.defaultIdx
 
 	for index, clause := range node.body {
